@@ -68,7 +68,7 @@ def run(cmd, timeout=None, cwd=None, env=None, input=None, check=False):
         e.update(env)
     try:
         p = subprocess.run(cmd, cwd=cwd, env=e, input=input, capture_output=True,
-                           text=True, timeout=timeout, shell=isinstance(cmd, str))
+                           text=True, errors="replace", timeout=timeout, shell=isinstance(cmd, str))
         out = p.stdout + p.stderr
         rc = p.returncode
     except subprocess.TimeoutExpired as ex:
